@@ -76,17 +76,26 @@ Theorem C17_faithful_refuted_wrapped_composite : exists m1 m2 v,
 Proof. exact faithful_refuted_wrapped_composite. Qed.
 Print Assumptions C17_faithful_refuted_wrapped_composite.
 
-(* What is proved of faithfulness (partial): at token level -- leaf wordings and their negative forms are opaque tokens,
-   "and" / "or" / ":" / "-" are tokens -- a flat expression (a literal, or a non-empty all_of / any_of of literals, a literal
-   being a leaf or a negated leaf) is determined up to its verdicts by its description, whether it is rendered on one line
-   or itemised.  MISSING for the full statement: nesting of composites (indentation-based itemisation), has_item/has_entry
-   ... sub-descriptions, and the step from strings to tokens (a user string containing " and " is not a token boundary). *)
-Theorem C17_faithful_partial : forall (s1 s2 : bool) (f1 f2 : flat),
-  flat_nonempty f1 = true -> flat_nonempty f2 = true ->
-  render_flat s1 f1 = render_flat s2 f2 ->
-  forall val : nat -> bool, flat_sem val f1 = flat_sem val f2.
-Proof. exact faithful_partial. Qed.
+(* What is proved of faithfulness (partial): at TOKEN level.  Leaf wordings and their negative forms are opaque tokens
+   (a literal = a leaf matcher or a negated leaf), "and" / "or" / ":" / "-" are tokens, and the indentation of the itemised
+   form is read as structure (doc).  For expressions built from literals with non-empty all_of / any_of nested to any depth,
+   rendered on one line or itemised by whatever decision the length rule takes (`single`), the description determines the
+   verdicts: two expressions with the same rendering accept the same values, whatever the leaves mean (val).
+   MISSING for the full statement (and false in general, see the refuted theorems above): not_ applied to a composite, empty
+   composites, wrappers, the sub-descriptions of has_item / has_entry / ..., and the step from strings to tokens (a user
+   string containing " and " or a newline is not a token boundary; string-level injectivity is not claimed). *)
+Theorem C17_faithful_partial : forall (s1 s2 : list fexpr -> bool) (e1 e2 : fexpr),
+  fexpr_wf e1 = true -> fexpr_wf e2 = true ->
+  render s1 e1 = render s2 e2 ->
+  forall val : nat -> bool, fsem val e1 = fsem val e2.
+Proof. exact faithful_partial_nested. Qed.
 Print Assumptions C17_faithful_partial.
+
+(* the non-emptiness hypothesis is needed: all_of() / any_of() *)
+Theorem C17_faithful_partial_needs_nonempty : exists s f1 f2 val,
+  render_flat s f1 = render_flat s f2 /\ flat_sem val f1 <> flat_sem val f2.
+Proof. exact faithful_partial_needs_nonempty. Qed.
+Print Assumptions C17_faithful_partial_needs_nonempty.
 
 (* non-vacuity *)
 Example C17_witness_itemised :
@@ -94,12 +103,15 @@ Example C17_witness_itemised :
                    AMat (not_ (AMat (has_item (AMat (greater_than (VInt 3))))));
                    AMat (has_entry (VStr [107%N]) (Some (AMat (not_ (AMat is_none)))))] in
   snd (describe_st not_of_source m fresh) = fresh /\
-  List.length (split_lines (describe not_of_source m)) = 4 /\
+  has_newline (describe not_of_source m) = true /\
   describe not_of_source (not_ (AMat (not_ (AMat m)))) = describe not_of_source m.
 Proof. vm_compute. repeat split. Qed.
 
 Example C17_witness_tokens :
-  render_flat true (FAll [Lit 0 false; Lit 1 true]) = [TLit (Lit 0 false); TAnd; TLit (Lit 1 true)] /\
-  render_flat false (FAny [Lit 0 false; Lit 1 true]) = [TColon; TBullet; TLit (Lit 0 false); TBullet; TOr; TLit (Lit 1 true)] /\
-  render_flat true (FAll [Lit 0 false; Lit 1 true]) <> render_flat true (FAny [Lit 0 false; Lit 1 true]).
+  let a := FL (Lit 0 false) in let b := FL (Lit 1 true) in let c := FL (Lit 2 false) in
+  let e1 := FAllN [FAnyN [a; b]; c] in let e2 := FAnyN [a; FAllN [b; c]] in
+  fexpr_wf e1 = true /\ fexpr_wf e2 = true /\
+  render (fun _ => true) e1 = DItems [(None, DLine [TLit (Lit 0 false); TOr; TLit (Lit 1 true)]); (Some TAnd, DLine [TLit (Lit 2 false)])] /\
+  render (fun _ => true) e1 <> render (fun _ => true) e2 /\
+  fsem (fun i => Nat.eqb i 0) e1 = false /\ fsem (fun i => Nat.eqb i 0) e2 = true.
 Proof. repeat split; try reflexivity. discriminate. Qed.
